@@ -1903,6 +1903,10 @@ class _Ctx:
             return None
         fn, init = args[0], args[1]
         xs = args[2] if len(args) > 2 else kwargs.get("xs", C(None))
+        # scan(f, init, xs, reverse=True) is scan over flip(xs, 0) with the stacked outputs flipped back (each output lands at its own time step)
+        rev = (kwargs.get("reverse") == C(True) or (len(args) > 4 and args[4] == C(True))) and xs != C(None) and not is_t(xs, "tuple")
+        if rev:
+            xs = ("call", G("jax.numpy.flip"), (xs,), (("axis", C(0)),))
         sid = next(ev._ids)
         if is_t(init, "tuple") and not _has_star(init):
             n = len(init[1])
@@ -1924,7 +1928,7 @@ class _Ctx:
             final = mk_tuple(("scanfinal", sid, i) for i in range(n))
         else:
             final = ("scanfinal", sid, None)
-        return mk_tuple([final, ("stack", y)])
+        return mk_tuple([final, ("call", G("jax.numpy.flip"), (("stack", y),), (("axis", C(0)),)) if rev else ("stack", y)])
 
 
 # ====================================================================================== small utilities
